@@ -65,8 +65,10 @@ impl ExtendedPrivateKey {
     pub fn from_string_impl(xprv_string: &str) -> Result<Self, BSVErrors> {
         let mut cursor = Cursor::new(bs58::decode(xprv_string).into_vec()?);
 
-        // Skip the first 4 bytes "xprv"
-        cursor.set_position(4);
+        // The first 4 bytes say what kind of key follows: only the serialisation of an extended private key is read as one
+        if cursor.read_u32::<BigEndian>()? != XPRIV_VERSION_BYTE {
+            return Err(BSVErrors::GenericError("Not an extended private key: wrong version bytes".into()));
+        }
 
         let depth = cursor.read_u8()?;
         let mut parent_fingerprint = vec![0; 4];
